@@ -37,6 +37,7 @@ func (matcher *requestResponseMatcher) registerRequest(ident string, request *Re
 		},
 	}
 
+	verifAwaitLock(&matcher.registerLock, "redis.registerRequest.lock")
 	matcher.registerLock.Lock()
 	defer matcher.registerLock.Unlock()
 	if response, found := matcher.openMessagesMap.LoadAndDelete(ident); found {
@@ -48,6 +49,7 @@ func (matcher *requestResponseMatcher) registerRequest(ident string, request *Re
 		return matcher.preparePair(&requestRedisMessage, responseRedisMessage)
 	}
 
+	verifYield("redis.registerRequest.store")
 	matcher.openMessagesMap.Store(ident, &requestRedisMessage)
 	return nil
 }
@@ -66,6 +68,7 @@ func (matcher *requestResponseMatcher) registerResponse(ident string, response *
 		},
 	}
 
+	verifAwaitLock(&matcher.registerLock, "redis.registerResponse.lock")
 	matcher.registerLock.Lock()
 	defer matcher.registerLock.Unlock()
 	if request, found := matcher.openMessagesMap.LoadAndDelete(ident); found {
@@ -77,6 +80,7 @@ func (matcher *requestResponseMatcher) registerResponse(ident string, response *
 		return matcher.preparePair(requestRedisMessage, &responseRedisMessage)
 	}
 
+	verifYield("redis.registerResponse.store")
 	matcher.openMessagesMap.Store(ident, &responseRedisMessage)
 	return nil
 }
